@@ -403,7 +403,7 @@ func runPipeline(c *simrun.Ctx) *simrun.Violation {
 			fp.av = simval.Gen(t, md, cfg)
 			fp.foreign = t.Chance("foreign", 1, 3)
 			if fp.foreign {
-				fp.wire = (&simval.EncodeOpts{T: t, Shuffle: true, DupMapKeys: t.Chance("dupkeys", 1, 2), KeyOnlyEntries: t.Chance("keyonly", 1, 3)}).Encode(fp.av)
+				fp.wire = (&simval.EncodeOpts{T: t, Shuffle: true, Unknowns: true, DupMapKeys: t.Chance("dupkeys", 1, 2), KeyOnlyEntries: t.Chance("keyonly", 1, 3)}).Encode(fp.av)
 			} else {
 				// the producer's message is built here, with a tape-drawn history
 				// (struct literal with empty non-nil containers and spare capacity,
@@ -548,7 +548,17 @@ func runPipeline(c *simrun.Ctx) *simrun.Violation {
 						var out []byte
 						out, err = proto.MarshalOptions{}.MarshalAppend(prefix, m)
 						if err == nil {
+							if len(out) < len(prefix) {
+								lg.errf("C07:marshalappend-disturbed-the-callers-prefix|frame %d: result shorter than the prefix", fp.id)
+								out = append(prefix[:0:0], prefix...)
+							}
 							frame = out[len(prefix):]
+							for i := range prefix {
+								if out[i] != 0xA5 || prefix[i] != 0xA5 {
+									lg.errf("C07:marshalappend-disturbed-the-callers-prefix|frame %d (type %s): byte %d of the %d-byte prefix (cap %d) changed", fp.id, mt.Descriptor().FullName(), i, fp.prefixLen, fp.prefixCap)
+									break
+								}
+							}
 						}
 					case 2:
 						var out protoiface.MarshalOutput
